@@ -115,6 +115,7 @@ fn restored(s: &Snapshot, tc: &TypingCtx, dc: &DefsCtx) -> bool {
 
 fn check_open(text: &str, blocks: &[Block], body: &M, well_typed_expected: Option<bool>) {
     count!("open_terms");
+    count!("evaluations");
     let closed = wrap_term(blocks, body);
     let (mut tc, mut dc) = materialise(blocks);
     let snap = snapshot(&tc, &dc);
@@ -250,7 +251,7 @@ fn peel_sweep(tier: Tier) -> Sweep {
         ps.len() as u64,
         move |idx| {
             let (text, m, s) = &ps[idx as usize];
-            count!("evaluations");
+            count!("programs");
             for levels in 1..=3 {
                 let (blocks, body) = peel(m, levels);
                 if blocks.len() < levels {
@@ -308,7 +309,7 @@ pub fn unify_under_context_sweep(tier: Tier) -> Sweep {
         limit,
         move |idx| {
             let (text, m, _) = &ps[idx as usize];
-            count!("evaluations");
+            count!("programs");
             if crate::findings::is_known("F-HOLE-COPY") && crate::props::c12::has_recursive_definition(m) {
                 count!("skipped_recursive_instances");
                 return;
@@ -329,6 +330,7 @@ pub fn unify_under_context_sweep(tier: Tier) -> Sweep {
             };
             for pat in candidates {
                 count!("unify_calls");
+                count!("evaluations");
                 let mut cells = Default::default();
                 let (rp, ri) = (to_real(&pat, &mut cells), to_real(&body, &mut cells));
                 let copies = crate::verif_hooks::hole_copies();
@@ -379,7 +381,7 @@ impl Prop for C18 {
     fn evidence(&self, tier: Tier) -> EvidenceSpec {
         EvidenceSpec {
             level: "exploration",
-            rule: "every closed type-directed program that starts with a lambda or a definition group is peeled one, two and three binders deep (contexts mixing plain parameters and groups of one and two definitions, i.e. entries with offsets 0, 1, 2 looked up from depths 0..5); the context vectors are built exactly as the checker pushes them and the real type_check, normalize_weak_head and unify are called on the open body; every fourth program additionally in every single-point perturbation (ill-typed open terms, faults inside nested scopes). Oracle: same verdict as the closed program; closed type convertible (reference) with the open type bound the same way; the weak-head normal form under the context convertible with the term; unify(t, nf t) true under the context and closed; after every call, accepted or rejected, both context vectors pointer-identical with the same offsets. non-trivial = open terms whose verdict and type were compared".to_owned(),
+            rule: "every closed type-directed program that starts with a lambda or a definition group is peeled one, two and three binders deep (contexts mixing plain parameters and groups of one and two definitions, i.e. entries with offsets 0, 1, 2 looked up from depths 0..5); the context vectors are built exactly as the checker pushes them and the real type_check, normalize_weak_head and unify are called on the open body; every fourth program additionally in every single-point perturbation (ill-typed open terms, faults inside nested scopes). Oracle: same verdict as the closed program; closed type convertible (reference) with the open type bound the same way; the weak-head normal form under the context convertible with the term; unify(t, nf t) true under the context and closed; after every call, accepted or rejected, both context vectors pointer-identical with the same offsets. evaluations = (context, open term) pairs; non-trivial = those whose verdict and type were compared".to_owned(),
             assumptions: vec!["reference conversion with fuel; contexts come from peeling well-typed programs, so they are well formed".to_owned()],
             evaluations: "evaluations",
             nontrivial: "nontrivial",
